@@ -153,6 +153,25 @@ Theorem C14_gerror_clone : forall srt srt' srt2 srt2' fs,
   fields_to_clone srt srt2 fs = fields_to_clone srt' srt2' fs.
 Proof. exact fields_to_clone_indep. Qed.
 
+(* --- gencommon Interface.Methods --------------------------------------------------------- *)
+
+(* namedTypeToInterface appends the promoted embedded methods in the iteration order of the
+   methodsToAdd map; the consumers (Methods.Exported / Private) sort by the generated
+   Methods.Less (IsExported, Name).  With method names of one interface pairwise distinct the
+   sorted list does not depend on that order nor on the sort's treatment of ties *)
+Theorem C14_iface_methods_sorted : forall pi pi' srt srt' promoted own to_add,
+  iter_ok pi -> iter_ok pi' -> sort_ok method_lt srt -> sort_ok method_lt srt' ->
+  NoDup (map gm_name (own ++ map snd to_add)) ->
+  srt (iface_methods pi promoted own to_add) = srt' (iface_methods pi' promoted own to_add).
+Proof. exact iface_methods_sorted_indep. Qed.
+(* gerror files the factory comments under the method name and the template looks them up by
+   name: the comment found does not depend on the order either *)
+Theorem C14_iface_comment_lookup : forall name pi pi' promoted own to_add,
+  iter_ok pi -> iter_ok pi' -> NoDup (map gm_name (own ++ map snd to_add)) ->
+  comment_of name (iface_methods pi promoted own to_add) =
+  comment_of name (iface_methods pi' promoted own to_add).
+Proof. exact iface_comment_indep. Qed.
+
 (* --- the hypotheses can be met ----------------------------------------------------------- *)
 
 (* Go's string `<` is a strict weak (indeed total) order ... *)
@@ -171,6 +190,9 @@ Theorem C14_sort_ok_import : sort_ok import_lt (isort import_lt).
 Proof. exact sort_ok_import. Qed.
 Theorem C14_sort_ok_efield : sort_ok efield_lt (isort efield_lt).
 Proof. exact sort_ok_efield. Qed.
+
+Theorem C14_sort_ok_method : sort_ok method_lt (isort method_lt).
+Proof. exact sort_ok_method. Qed.
 
 (* --- non-vacuity: concrete instances ------------------------------------------------------ *)
 
@@ -285,6 +307,37 @@ Proof.
   intros v Hin. cbn in Hin. repeat destruct Hin as [<-|Hin]; try reflexivity. destruct Hin.
 Qed.
 
+(* Interface.Methods: one own method, two promoted embedded ones and one shadowed (not
+   promoted); the unsorted lists differ between the two map orders, the sorted ones and the
+   comment lookups do not *)
+Definition ex_own : list gmethod :=
+  [ {| gm_name := "String"; gm_exported := true; gm_comment := "own" |} ].
+Definition ex_to_add : list (string * gmethod) :=
+  [ ("Swap", {| gm_name := "Swap"; gm_exported := true; gm_comment := "swap" |});
+    ("less", {| gm_name := "less"; gm_exported := false; gm_comment := "less" |});
+    ("Hidden", {| gm_name := "Hidden"; gm_exported := true; gm_comment := "hidden" |}) ].
+Definition ex_promoted (n : string) : bool := negb (String.eqb n "Hidden").
+Example C14_ex_iface :
+  iface_methods (fun l => l) ex_promoted ex_own ex_to_add
+    <> iface_methods (@rev _) ex_promoted ex_own ex_to_add
+  /\ isort method_lt (iface_methods (fun l => l) ex_promoted ex_own ex_to_add)
+     = isort method_lt (iface_methods (@rev _) ex_promoted ex_own ex_to_add)
+  /\ map gm_name (isort method_lt (iface_methods (@rev _) ex_promoted ex_own ex_to_add))
+     = ["less"; "String"; "Swap"]
+  /\ comment_of "Swap" (iface_methods (fun l => l) ex_promoted ex_own ex_to_add) = Some "swap"
+  /\ comment_of "Swap" (iface_methods (@rev _) ex_promoted ex_own ex_to_add) = Some "swap".
+Proof. vm_compute. repeat split. discriminate. Qed.
+Example C14_ex_iface_all : forall pi srt, iter_ok pi -> sort_ok method_lt srt ->
+  map gm_name (srt (iface_methods pi ex_promoted ex_own ex_to_add)) = ["less"; "String"; "Swap"].
+Proof.
+  intros pi srt Hp Hs.
+  rewrite (C14_iface_methods_sorted pi (@rev _) srt (isort method_lt) ex_promoted ex_own
+             ex_to_add Hp (iter_ok_rev _) Hs C14_sort_ok_method).
+  - vm_compute. reflexivity.
+  - vm_compute. repeat constructor; cbn [In]; intros K; repeat destruct K as [K|K];
+      try discriminate K; exact K.
+Qed.
+
 Print Assumptions C14_sort_choice_unique.
 Print Assumptions C14_lookup_first.
 Print Assumptions C14_gsort.
@@ -310,3 +363,6 @@ Print Assumptions C14_sort_ok_desc.
 Print Assumptions C14_sort_ok_trait.
 Print Assumptions C14_sort_ok_import.
 Print Assumptions C14_sort_ok_efield.
+Print Assumptions C14_iface_methods_sorted.
+Print Assumptions C14_iface_comment_lookup.
+Print Assumptions C14_sort_ok_method.
